@@ -526,9 +526,20 @@ func (x *Exec) VerifyFunc(key string) (err error) {
 		for _, n := range x.callSitesCanon(fn) {
 			have[n] = true
 		}
-		for site := range c.Sites {
+		for _, site := range sortedKeys(c.Sites) {
 			if !have[site] {
-				return fmt.Errorf("cannot bind call-site annotation %q of %s: no such call in the function", site, key)
+				obligation := false
+				for _, a := range c.Sites[site] {
+					if a.Kind != "set" && a.Kind != "onpanic" {
+						obligation = true
+					}
+				}
+				if obligation {
+					return fmt.Errorf("cannot bind call-site annotation %q of %s: no such call in the function", site, key)
+				}
+				// a ghost assignment at a call that no longer exists simply never happens; the obligations that
+				// read the ghost decide (they fail unless they hold without it)
+				x.warnings = append(x.warnings, fmt.Sprintf("ghost assignment at %q of %s is not bound: no such call in the function", site, key))
 			}
 		}
 	}
